@@ -14,7 +14,9 @@
  */
 
 
-static OrcOpcodeSet *opcode_sets;
+/* pointers to separately allocated sets: the handles orc_opcode_set_get()
+ * returns stay valid when further sets are registered */
+static OrcOpcodeSet **opcode_sets;
 static int n_opcode_sets;
 
 #if 0
@@ -64,13 +66,14 @@ orc_opcode_register_static (OrcStaticOpcode *sopcode, char *prefix)
   major = n_opcode_sets;
 
   n_opcode_sets++;
-  opcode_sets = orc_realloc (opcode_sets, sizeof(OrcOpcodeSet)*n_opcode_sets);
+  opcode_sets = orc_realloc (opcode_sets, sizeof(OrcOpcodeSet *)*n_opcode_sets);
+  opcode_sets[major] = orc_malloc (sizeof(OrcOpcodeSet));
 
-  memset (opcode_sets + major, 0, sizeof(OrcOpcodeSet));
-  strncpy(opcode_sets[major].prefix, prefix, sizeof(opcode_sets[major].prefix)-1);
-  opcode_sets[major].n_opcodes = n;
-  opcode_sets[major].opcodes = sopcode;
-  opcode_sets[major].opcode_major = major;
+  memset (opcode_sets[major], 0, sizeof(OrcOpcodeSet));
+  strncpy(opcode_sets[major]->prefix, prefix, sizeof(opcode_sets[major]->prefix)-1);
+  opcode_sets[major]->n_opcodes = n;
+  opcode_sets[major]->opcodes = sopcode;
+  opcode_sets[major]->opcode_major = major;
 
   return major;
 }
@@ -81,8 +84,8 @@ orc_opcode_set_get (const char *name)
   int i;
 
   for(i=0;i<n_opcode_sets;i++){
-    if (strcmp (opcode_sets[i].prefix, name) == 0) {
-      return opcode_sets + i;
+    if (strcmp (opcode_sets[i]->prefix, name) == 0) {
+      return opcode_sets[i];
     }
   }
 
@@ -92,7 +95,7 @@ orc_opcode_set_get (const char *name)
 OrcOpcodeSet *
 orc_opcode_set_get_nth (int opcode_major)
 {
-  return opcode_sets + opcode_major;
+  return opcode_sets[opcode_major];
 }
 
 OrcOpcodeSet *
@@ -104,12 +107,12 @@ orc_opcode_set_find_by_opcode (OrcStaticOpcode * opcode)
   /* Pointer arithmetic to find a pointer inside an array ...
   */
   for (k = 0; k < n_opcode_sets; k++) {
-    j = opcode - opcode_sets[k].opcodes;
+    j = opcode - opcode_sets[k]->opcodes;
 
-    if (j < 0 || j >= opcode_sets[k].n_opcodes) continue;
-    if (opcode_sets[k].opcodes + j != opcode) continue;
+    if (j < 0 || j >= opcode_sets[k]->n_opcodes) continue;
+    if (opcode_sets[k]->opcodes + j != opcode) continue;
 
-    return &opcode_sets[k];
+    return opcode_sets[k];
   }
 
   return NULL;
@@ -138,9 +141,9 @@ orc_opcode_find_by_name (const char *name)
   int j;
 
   for(i=0;i<n_opcode_sets;i++){
-    j = orc_opcode_set_find_by_name (opcode_sets + i, name);
+    j = orc_opcode_set_find_by_name (opcode_sets[i], name);
     if (j >= 0) {
-      return &opcode_sets[i].opcodes[j];
+      return &opcode_sets[i]->opcodes[j];
     }
   }
 
